@@ -111,6 +111,15 @@ func (in *Interp) tlsHandshake(fr *frame, t *Obj) Value {
 		return in.newError(CStr("tls: handshake failure"), nil)
 	}
 	raw, _ := in.rawConn(t.F["raw"])
+	if raw != nil {
+		if pend, _ := raw.F["tlsPending"].(bool); pend {
+			// the client never sends its ClientHello
+			in.emit("tls.handshake.begin", in.connName(t.F["raw"]))
+			in.block("tls handshake "+in.connName(t.F["raw"]), func() bool { return raw.F["closed"] != nil || raw.F["deadline"] != nil })
+			t.F["hs"] = false
+			return in.newError(CStr("tls: handshake did not complete"), nil)
+		}
+	}
 	ok := Value(true)
 	if raw != nil && raw.F["tlsOK"] != nil {
 		ok = raw.F["tlsOK"]
@@ -143,6 +152,15 @@ func (in *Interp) connWrite(fr *frame, dst Value, s Str) Value {
 	}
 	if raw.F["closed"] != nil {
 		return in.newError(CStr("write: use of closed network connection"), nil)
+	}
+	if wb, _ := raw.F["writeBlock"].(bool); wb {
+		// the client does not read: the write blocks until a write deadline or a close
+		in.emit("write.begin", in.connName(dst))
+		in.block("write "+in.connName(dst), func() bool { return raw.F["closed"] != nil || raw.F["wdeadline"] != nil })
+		if raw.F["closed"] != nil {
+			return in.newError(CStr("write: use of closed network connection"), nil)
+		}
+		return in.newError(CStr("write: i/o timeout"), nil)
 	}
 	if wf := raw.F["writeFail"]; wf != nil {
 		if in.branch(wf, "write failure") {
@@ -796,12 +814,16 @@ func (in *Interp) objMethod(fr *frame, o *Obj, name string, args []Value) Value 
 				return in.newError(CStr("set deadline: error"), nil)
 			}
 			o.F["deadline"] = true
+			if name == "SetDeadline" {
+				o.F["wdeadline"] = true
+			}
 			return Iface{}
 		case "SetWriteDeadline":
 			in.emit("setWriteDeadline", nm)
 			if de := o.F["deadlineErr"]; de != nil && in.branch(de, "deadline error") {
 				return in.newError(CStr("set deadline: error"), nil)
 			}
+			o.F["wdeadline"] = true
 			return Iface{}
 		case "RemoteAddr", "LocalAddr":
 			return in.ifaceOf(in.newObj("addr"))
